@@ -1459,3 +1459,1686 @@ func hnRunC34(t *testing.T, rt *rapid.T) {
 }
 
 func TestVerif_C34(t *testing.T) { vs.Check(t, func(rt *rapid.T) { hnRunC34(t, rt) }) }
+
+// ===========================================================================
+// C35: a byzantine QUIC peer writes generated raw HTTP/3 bytes
+//
+// The peer of the real HTTP/3 server (sub-mode "server") or of the real HTTP/3
+// client (sub-mode "client") is a real quic.Conn driven by the simulator. It
+// writes byte strings that were built as valid HTTP/3 frame sequences (field
+// sections from the package's QPACK encoder) and then damaged by operators. The
+// oracle parses what was actually sent with its own frame parser (RFC 9114
+// section 7.1: type varint, length varint, payload) and compares.
+
+const (
+	hbTData        = 0x00
+	hbTHeaders     = 0x01
+	hbTCancelPush  = 0x03
+	hbTSettings    = 0x04
+	hbTPushPromise = 0x05
+	hbTGoaway      = 0x07
+	hbTMaxPushID   = 0x0d
+)
+
+// hbAppendVarint appends a QUIC varint (RFC 9000 section 16) of the given width
+// in bytes (0 = minimal).
+func hbAppendVarint(b []byte, v uint64, width int) []byte {
+	need := 1
+	switch {
+	case v > 1<<30-1:
+		need = 8
+	case v > 1<<14-1:
+		need = 4
+	case v > 63:
+		need = 2
+	}
+	if width < need {
+		width = need
+	}
+	switch width {
+	case 1:
+		return append(b, byte(v))
+	case 2:
+		return append(b, 0x40|byte(v>>8), byte(v))
+	case 4:
+		return append(b, 0x80|byte(v>>24), byte(v>>16), byte(v>>8), byte(v))
+	}
+	return append(b, 0xc0|byte(v>>56), byte(v>>48), byte(v>>40), byte(v>>32), byte(v>>24), byte(v>>16), byte(v>>8), byte(v))
+}
+
+func hbVarint(b []byte) (v uint64, n int, ok bool) {
+	if len(b) == 0 {
+		return 0, 0, false
+	}
+	n = 1 << (b[0] >> 6)
+	if len(b) < n {
+		return 0, 0, false
+	}
+	v = uint64(b[0] & 0x3f)
+	for i := 1; i < n; i++ {
+		v = v<<8 | uint64(b[i])
+	}
+	return v, n, true
+}
+
+// hbRefFrame is one frame of the reference parse.
+type hbRefFrame struct {
+	typ    uint64
+	length uint64
+	hdr    int    // offset of the frame header
+	pay    int    // offset of the payload
+	end    int    // end of the payload present in the input
+	cut    string // "": complete; "type", "len": input ends inside the header; "payload": inside the payload
+}
+
+// hbParse is the reference frame parser.
+func hbParse(b []byte) []hbRefFrame {
+	var out []hbRefFrame
+	i := 0
+	for i < len(b) {
+		f := hbRefFrame{hdr: i, pay: len(b), end: len(b)}
+		t, n, ok := hbVarint(b[i:])
+		if !ok {
+			f.cut = "type"
+			return append(out, f)
+		}
+		f.typ = t
+		l, m, ok := hbVarint(b[i+n:])
+		if !ok {
+			f.cut = "len"
+			return append(out, f)
+		}
+		f.length = l
+		f.pay = i + n + m
+		if l > uint64(len(b)-f.pay) {
+			f.cut = "payload"
+			return append(out, f)
+		}
+		f.end = f.pay + int(l)
+		out = append(out, f)
+		i = f.end
+	}
+	return out
+}
+
+func hbClass(t uint64) string {
+	switch t {
+	case hbTData:
+		return "data"
+	case hbTHeaders:
+		return "headers"
+	case hbTCancelPush, hbTSettings, hbTPushPromise, hbTGoaway, hbTMaxPushID:
+		return "known_other"
+	case 0x02, 0x06, 0x08, 0x09:
+		return "h2reserved" // RFC 9114 7.2.8 wants H3_FRAME_UNEXPECTED; the property says nothing: don't care
+	}
+	return "unknown"
+}
+
+// ---------------------------------------------------------------------------
+// C35: plan
+
+type hbFrame struct {
+	typ      uint64
+	payload  []byte
+	typW     int   // varint widths (0 = minimal)
+	lenW     int
+	lenOver  int64 // >= 0: declared length instead of len(payload)
+	bounds   []int // HEADERS: offsets in payload at which a field line ends (incl. 2 = after the prefix)
+	role     string
+}
+
+type hbExpect struct {
+	verdict string // strict, must_error, latitude
+	why     string
+	body    []byte // concatenation of the DATA payloads a consumer may be handed, in order
+	hdrCut  bool   // must_error because the first HEADERS frame is truncated / over-read: the message must not be accepted at all
+	unknown int    // complete unknown-type frames in legal positions (must be skipped)
+	unkPre  int    // ... of which before the first HEADERS
+	ctrlMustClose bool
+}
+
+type hbStream struct {
+	kind      string // req, ctrl, uni
+	utype     uint64
+	wire      []byte
+	ops       []string
+	writes    []int
+	flush     []bool
+	end       string // fin, reset, open
+	resetCode uint64
+	readSizes []int
+	stepped   int
+	post      int // client mode: request body bytes (0 = GET)
+	valid     map[string]string // payload -> "req", "resp", "info", "trailers", "settings"
+	overread  map[string]bool   // HEADERS payloads that are a valid section cut inside a field line
+	exp       hbExpect
+}
+
+type hbPlan struct {
+	mode     string // server: the real server faces the byzantine peer; client: the real client does
+	real     hnQCfg
+	byz      hnQCfg
+	faults   vs.PacketFaults
+	randSeed uint64
+	streams  []*hbStream // server mode: everything the peer opens; client mode: uni streams the peer opens
+	resps    []*hbStream // client mode: response scripts, by request sequence number
+}
+
+func hbDataByte(k int, off int) byte {
+	return byte((uint32(off)*2654435761+uint32(k+1)*40503)>>13) | 1 // never 0: garbage after a shortened DATA frame is rarely a DATA frame
+}
+
+// hbSection encodes a field section with the package's QPACK encoder and returns
+// it together with the offsets at which field lines end.
+func hbSection(fields []hnField) ([]byte, []int) {
+	var enc qpackEncoder
+	enc.init()
+	var bounds []int
+	var full []byte
+	for n := 0; n <= len(fields); n++ {
+		b := enc.encode(func(f func(itype indexType, name, value string)) {
+			for _, fl := range fields[:n] {
+				f(mayIndex, fl.k, fl.v)
+			}
+		})
+		bounds = append(bounds, len(b))
+		full = b
+	}
+	return full, bounds
+}
+
+func hbGrease(c vs.Chooser) uint64 {
+	return 0x21 + 0x1f*uint64(vs.Pick(c, 0, 1, 2, 7, 1000, 1<<30, (1<<62-1-0x21)/0x1f))
+}
+
+func hbUnknownType(c vs.Chooser) uint64 {
+	if vs.Bool(c) {
+		return hbGrease(c)
+	}
+	return uint64(vs.Pick(c, 0x0a, 0x0b, 0x0c, 0x0e, 0x0f, 0x10, 0x40, 0xff, 0x4000, 1<<30, 1<<62-1))
+}
+
+func hbBytes(c vs.Chooser, n int) []byte {
+	b := make([]byte, n)
+	x := uint32(c.Intn(1<<16))*2654435761 + 12345
+	for i := range b {
+		x = x*1664525 + 1013904223
+		b[i] = byte(x >> 24)
+	}
+	return b
+}
+
+func hbWidth(c vs.Chooser) int {
+	if vs.Pct(c, 15) {
+		return vs.Pick(c, 2, 4, 8)
+	}
+	return 0
+}
+
+func hbSettingsPayload(c vs.Chooser) []byte {
+	var b []byte
+	ids := []uint64{0x01, 0x06, 0x07, 0x21, 0x21 + 0x1f*5, 0x33, 1<<62 - 1}
+	n := vs.Range(c, 0, 4)
+	used := map[uint64]bool{}
+	for i := 0; i < n; i++ {
+		id := ids[c.Intn(len(ids))]
+		if used[id] {
+			continue
+		}
+		used[id] = true
+		v := uint64(vs.Pick(c, 0, 1, 100, 65536, 1<<62-1))
+		if id == 0x01 || id == 0x07 {
+			v = 0 // no dynamic table: keeps the real side's view of QPACK trivial
+		}
+		b = hbAppendVarint(b, id, hbWidth(c))
+		b = hbAppendVarint(b, v, hbWidth(c))
+	}
+	return b
+}
+
+func hbSerialize(frames []hbFrame) []byte {
+	var b []byte
+	for _, f := range frames {
+		b = hbAppendVarint(b, f.typ, f.typW)
+		l := uint64(len(f.payload))
+		if f.lenOver >= 0 {
+			l = uint64(f.lenOver)
+		}
+		b = hbAppendVarint(b, l, f.lenW)
+		b = append(b, f.payload...)
+	}
+	return b
+}
+
+// hbDrawMessage generates one request (server mode) or response (client mode)
+// stream: a valid frame sequence, then damage.
+func hbDrawMessage(c vs.Chooser, mode string, k int, win int) *hbStream {
+	// win: the receiver's stream window; sizes stay proportional to it so that a
+	// run needs a bounded number of round trips
+	maxData, maxUnk, hdrBudget := min(20000, 40*win), min(5000, 20*win), min(6000, 60*win)
+	st := &hbStream{kind: "req", end: "fin", valid: map[string]string{}, overread: map[string]bool{}}
+	var frames []hbFrame
+	unknown := func() hbFrame {
+		return hbFrame{typ: hbUnknownType(c), payload: hbBytes(c, vs.SizeBiased(c, maxUnk, 0, 1, 63, 64)), typW: hbWidth(c), lenW: hbWidth(c), lenOver: -1, role: "unknown"}
+	}
+	nUnknown := 0
+	addUnknown := func(pct int) {
+		if vs.Pct(c, pct) {
+			frames = append(frames, unknown())
+			nUnknown++
+		}
+	}
+	if !hnAvoid("unknown_before_headers") {
+		addUnknown(12)
+	}
+	var fields []hnField
+	if mode == "server" {
+		fields = []hnField{{":method", vs.Pick(c, "POST", "PUT", "GET")}, {":scheme", "https"}, {":authority", "vf.test"}, {":path", "/b" + strconv.Itoa(k)}}
+	} else {
+		if vs.Pct(c, 12) {
+			sec, bounds := hbSection([]hnField{{":status", "103"}, {"link", "</x>; rel=preload"}})
+			st.valid[string(sec)] = "info"
+			frames = append(frames, hbFrame{typ: hbTHeaders, payload: sec, typW: hbWidth(c), lenW: hbWidth(c), lenOver: -1, bounds: bounds, role: "info"})
+			addUnknown(20)
+		}
+		fields = []hnField{{":status", "200"}}
+	}
+	for _, f := range hnDrawFields(c, "x-vf-b", 8, hdrBudget, vs.Pct(c, 20)) {
+		fields = append(fields, hnField{strings.ToLower(f.k), f.v})
+	}
+	sec, bounds := hbSection(fields)
+	role := "req"
+	if mode == "client" {
+		role = "resp"
+	}
+	st.valid[string(sec)] = role
+	frames = append(frames, hbFrame{typ: hbTHeaders, payload: sec, typW: hbWidth(c), lenW: hbWidth(c), lenOver: -1, bounds: bounds, role: "headers"})
+	off := 0
+	for j, n := 0, vs.Range(c, 0, 5); j < n; j++ {
+		addUnknown(20)
+		sz := vs.SizeBiased(c, maxData, 0, 1, 63, 64, 1199, 16383, 16384)
+		p := make([]byte, sz)
+		for i := range p {
+			p[i] = hbDataByte(k, off+i)
+		}
+		off += sz
+		frames = append(frames, hbFrame{typ: hbTData, payload: p, typW: hbWidth(c), lenW: hbWidth(c), lenOver: -1, role: "data"})
+	}
+	addUnknown(20)
+	if vs.Pct(c, 25) {
+		var tf []hnField
+		for _, f := range hnDrawFields(c, "x-vf-t", 4, min(1500, hdrBudget), false) {
+			tf = append(tf, hnField{strings.ToLower(f.k), f.v})
+		}
+		sec, bounds := hbSection(tf)
+		st.valid[string(sec)] = "trailers"
+		frames = append(frames, hbFrame{typ: hbTHeaders, payload: sec, typW: hbWidth(c), lenW: hbWidth(c), lenOver: -1, bounds: bounds, role: "trailers"})
+		addUnknown(15)
+	}
+	for _, f := range frames {
+		if f.typW != 0 || f.lenW != 0 {
+			st.ops = append(st.ops, "nonminimal_varint")
+			break
+		}
+	}
+	if nUnknown > 0 {
+		st.ops = append(st.ops, "unknown_frame")
+	}
+
+	// damage
+	var trailing []byte
+	cutAt := -1
+	nops := 0
+	if vs.Pct(c, 65) {
+		nops = vs.Pick(c, 1, 1, 1, 2)
+	}
+	for o := 0; o < nops; o++ {
+		j := c.Intn(len(frames))
+		switch op := vs.Pick(c, "len_edit", "trunc_fin", "hdr_overread", "data_before_headers", "forbidden_frame", "h2reserved_frame", "trailing_garbage", "oversize_len", "hostile_qpack", "reset", "len_edit", "trunc_fin", "huge_string_in_oversize_headers"); op {
+		case "len_edit":
+			f := &frames[j]
+			l := int64(len(f.payload))
+			f.lenOver = max(0, l+int64(vs.Pick(c, -1, 1, -2, 2, -7, 9, -l, 100, -l/2)))
+			st.ops = append(st.ops, op)
+		case "oversize_len":
+			frames[j].lenOver = 1<<62 - 1
+			frames[j].lenW = 8
+			st.ops = append(st.ops, op)
+		case "hdr_overread":
+			if hnAvoid("hdr_overread") {
+				break
+			}
+			// shorten a HEADERS frame so that its declared end falls inside a field line
+			for jj := range frames {
+				f := &frames[(j+jj)%len(frames)]
+				if f.typ != hbTHeaders || len(f.payload) < 3 || f.lenOver >= 0 {
+					continue
+				}
+				cut := 1 + c.Intn(len(f.payload)-1)
+				onBound := false
+				for _, b := range f.bounds {
+					onBound = onBound || b == cut
+				}
+				if onBound {
+					cut--
+				}
+				if cut < 1 {
+					break
+				}
+				f.lenOver = int64(cut)
+				st.overread[string(f.payload[:cut])] = true
+				st.ops = append(st.ops, op)
+				break
+			}
+		case "trunc_fin":
+			cutAt = -2 // position drawn below, once the wire is known
+			st.ops = append(st.ops, op)
+		case "data_before_headers":
+			// move the first DATA frame (or a new one) to the front, or drop the HEADERS
+			var d hbFrame
+			found := false
+			for jj, f := range frames {
+				if f.typ == hbTData {
+					d, found = f, true
+					frames = append(frames[:jj:jj], frames[jj+1:]...)
+					break
+				}
+			}
+			if !found {
+				d = hbFrame{typ: hbTData, payload: []byte{1, 2, 3}, lenOver: -1, role: "data"}
+			}
+			if vs.Bool(c) {
+				frames = append([]hbFrame{d}, frames...)
+			} else {
+				// replace the first HEADERS by the DATA frame
+				for jj, f := range frames {
+					if f.typ == hbTHeaders {
+						frames[jj] = d
+						break
+					}
+				}
+			}
+			st.ops = append(st.ops, op)
+		case "forbidden_frame":
+			t := uint64(vs.Pick(c, hbTCancelPush, hbTMaxPushID, hbTPushPromise, hbTSettings, hbTGoaway))
+			var p []byte
+			switch t {
+			case hbTSettings:
+				p = hbSettingsPayload(c)
+			case hbTPushPromise:
+				p = append(hbAppendVarint(nil, uint64(c.Intn(4)), 0), sec...)
+			default:
+				p = hbAppendVarint(nil, uint64(vs.Pick(c, 0, 1, 4, 1<<20)), 0)
+			}
+			f := hbFrame{typ: t, payload: p, lenOver: -1, role: "forbidden"}
+			frames = append(frames[:j:j], append([]hbFrame{f}, frames[j:]...)...)
+			st.ops = append(st.ops, op)
+		case "h2reserved_frame":
+			f := hbFrame{typ: uint64(vs.Pick(c, 0x02, 0x06, 0x08, 0x09)), payload: hbBytes(c, vs.Pick(c, 0, 4, 5, 8)), lenOver: -1, role: "h2reserved"}
+			frames = append(frames[:j:j], append([]hbFrame{f}, frames[j:]...)...)
+			st.ops = append(st.ops, op)
+		case "trailing_garbage":
+			trailing = hbBytes(c, vs.Pick(c, 1, 2, 3, 9, 100, 3000))
+			st.ops = append(st.ops, op)
+		case "hostile_qpack":
+			for jj := range frames {
+				f := &frames[(j+jj)%len(frames)]
+				if f.typ != hbTHeaders {
+					continue
+				}
+				f.payload = hbHostileSection(c, f.payload)
+				st.ops = append(st.ops, op)
+				break
+			}
+		case "reset":
+			st.end = "reset"
+			st.resetCode = uint64(vs.Pick(c, 0x10c, 0x100, 0, 1<<62-1))
+			st.ops = append(st.ops, op)
+		case "huge_string_in_oversize_headers":
+			if hnAvoid("huge_alloc") {
+				break
+			}
+			// a HEADERS frame that declares 2^62-1 bytes and a field line whose string
+			// length is beyond anything that can be allocated
+			for jj := range frames {
+				f := &frames[(j+jj)%len(frames)]
+				if f.typ != hbTHeaders {
+					continue
+				}
+				n := int64(vs.Pick(c, 1<<50, 1<<62, 1<<63-8, 1<<48))
+				f.payload = append(append([]byte{0, 0}, appendPrefixedInt(nil, 0x20, 3, n)...), hbBytes(c, 40)...)
+				f.lenOver, f.lenW = 1<<62-1, 8
+				st.ops = append(st.ops, op)
+				break
+			}
+		}
+	}
+	st.wire = append(hbSerialize(frames), trailing...)
+	if cutAt == -2 && len(st.wire) > 0 {
+		// inside a frame header or payload, biased to the first bytes of a frame
+		ref := hbParse(st.wire)
+		f := ref[c.Intn(len(ref))]
+		cut := f.hdr + vs.SizeBiased(c, max(f.end-f.hdr-1, 0), 1, 2, f.pay-f.hdr)
+		if cut <= 0 {
+			cut = 1
+		}
+		st.wire = st.wire[:min(cut, len(st.wire))]
+	}
+	hbDrawDelivery(c, st)
+	return st
+}
+
+// hbHostileSection returns bytes that are not a field section a decoder may
+// accept (or that stress it): random bytes, dynamic-table references, a huge
+// string length.
+func hbHostileSection(c vs.Chooser, orig []byte) []byte {
+	switch vs.Pick(c, "random", "dynamic_ref", "bad_static_index", "huge_string", "bad_prefix", "uppercase", "pseudo_after_regular", "huffman_garbage") {
+	case "random":
+		return hbBytes(c, vs.SizeBiased(c, 300, 0, 1, 2, 3))
+	case "dynamic_ref":
+		return []byte{0, 0, 0x80 | byte(c.Intn(64)), 0x10 | byte(c.Intn(8))}
+	case "bad_static_index":
+		return append([]byte{0, 0}, appendPrefixedInt(nil, 0xc0, 6, int64(vs.Pick(c, 99, 100, 1000, 1<<40)))...)
+	case "huge_string":
+		// literal field line with literal name whose name length is far beyond the frame
+		n := int64(vs.Pick(c, 1<<16, 1<<20, 1<<22))
+		b := append([]byte{0, 0}, appendPrefixedInt(nil, 0x20, 3, n)...)
+		return append(b, hbBytes(c, 40)...)
+	case "bad_prefix":
+		return append([]byte{byte(vs.Pick(c, 1, 5, 0xff)), byte(c.Intn(256))}, orig[min(2, len(orig)):]...)
+	case "uppercase":
+		sec, _ := hbSection([]hnField{{":status", "200"}, {":method", "GET"}, {":scheme", "https"}, {":path", "/"}})
+		return appendLiteralFieldLineWithLiteralName(sec, mayIndex, "X-Upper", "v")
+	case "pseudo_after_regular":
+		sec, _ := hbSection([]hnField{{"x-a", "b"}, {":status", "200"}, {":method", "GET"}, {":scheme", "https"}, {":path", "/"}})
+		return sec
+	}
+	// a Huffman-flagged string of bytes that is not a valid Huffman string
+	b := []byte{0, 0, 0x27, 0x00, 'n', 0x80 | 4, 0xff, 0xff, 0xff, 0xff}
+	return b
+}
+
+// hbDrawDelivery draws the write segmentation, flushes and reader sizes.
+func hbDrawDelivery(c vs.Chooser, st *hbStream) {
+	rem := len(st.wire)
+	style := vs.Pick(c, "whole", "few", "tiny", "few")
+	for rem > 0 {
+		var k int
+		switch style {
+		case "whole":
+			k = rem
+		case "few":
+			k = 1 + vs.SizeBiased(c, rem-1, 0, 1, 2, 8, 1199)
+		default:
+			k = vs.Pick(c, 1, 1, 2, 3)
+			if len(st.writes) > 60 {
+				k = rem // the first 60 bytes byte by byte, the rest at once
+			}
+		}
+		k = min(k, rem)
+		st.writes = append(st.writes, k)
+		st.flush = append(st.flush, vs.Pct(c, 60))
+		rem -= k
+	}
+	if style == "tiny" && len(st.writes) > 8 {
+		st.ops = append(st.ops, "split_writes")
+	}
+	st.readSizes = hnDrawSizes(c, vs.Range(c, 1, 4), 1<<16, 1, 2, 7, 100, 4096, 20000)
+	st.stepped = vs.Range(c, 0, 5)
+}
+
+// hbDrawUni generates a unidirectional stream of the byzantine peer.
+func hbDrawUni(c vs.Chooser, mode string, what string) *hbStream {
+	st := &hbStream{kind: "uni", end: "open", valid: map[string]string{}, overread: map[string]bool{}}
+	var frames []hbFrame
+	tw := hbWidth(c)
+	switch what {
+	case "control", "second_control":
+		st.kind = "ctrl"
+		st.utype = 0
+		sp := hbSettingsPayload(c)
+		st.valid[string(sp)] = "settings"
+		frames = append(frames, hbFrame{typ: hbTSettings, payload: sp, typW: hbWidth(c), lenW: hbWidth(c), lenOver: -1})
+		for j, n := 0, vs.Range(c, 0, 3); j < n; j++ {
+			frames = append(frames, hbFrame{typ: hbUnknownType(c), payload: hbBytes(c, vs.SizeBiased(c, 3000, 0, 1, 63, 64)), typW: hbWidth(c), lenW: hbWidth(c), lenOver: -1})
+			if len(st.ops) == 0 {
+				st.ops = append(st.ops, "unknown_frame")
+			}
+		}
+		if what == "second_control" {
+			st.ops = append(st.ops, "second_control")
+		}
+		if vs.Pct(c, 45) {
+			j := c.Intn(len(frames))
+			switch op := vs.Pick(c, "missing_settings", "ctrl_forbidden_frame", "len_edit", "trunc_fin", "fin", "oversize_len", "ctrl_known_frame", "reset", "trunc_fin"); op {
+			case "missing_settings":
+				frames = frames[1:]
+				if len(frames) == 0 {
+					frames = append(frames, hbFrame{typ: hbTGoaway, payload: []byte{0}, lenOver: -1})
+				}
+			case "ctrl_forbidden_frame":
+				t := uint64(vs.Pick(c, hbTData, hbTHeaders, hbTPushPromise, hbTSettings))
+				f := hbFrame{typ: t, payload: hbBytes(c, vs.Pick(c, 0, 1, 10)), lenOver: -1}
+				frames = append(frames[:j+1:j+1], append([]hbFrame{f}, frames[j+1:]...)...)
+			case "ctrl_known_frame":
+				t := uint64(vs.Pick(c, hbTGoaway, hbTMaxPushID, hbTCancelPush))
+				f := hbFrame{typ: t, payload: hbAppendVarint(nil, uint64(vs.Pick(c, 0, 4, 1<<20)), 0), lenOver: -1}
+				frames = append(frames[:j+1:j+1], append([]hbFrame{f}, frames[j+1:]...)...)
+			case "len_edit":
+				f := &frames[j]
+				l := int64(len(f.payload))
+				f.lenOver = max(0, l+int64(vs.Pick(c, -1, 1, -2, 2, 9, -l)))
+			case "oversize_len":
+				frames[j].lenOver, frames[j].lenW = 1<<62-1, 8
+			case "trunc_fin":
+				if hnAvoid("ctrl_trunc") {
+					op = ""
+					break
+				}
+				st.end = "trunc"
+			case "fin":
+				st.end = "fin"
+			case "reset":
+				st.end = "reset"
+				st.resetCode = 0x10c
+			}
+			if op := st.ops; true {
+				_ = op
+			}
+			st.ops = append(st.ops, "ctrl_damage")
+		}
+	case "push":
+		st.utype = 1
+		st.ops = append(st.ops, "push_stream")
+		frames = append(frames, hbFrame{typ: hbTHeaders, payload: hbBytes(c, 10), lenOver: -1})
+		st.end = vs.Pick(c, "fin", "open")
+	case "qpack":
+		st.utype = uint64(vs.Pick(c, 2, 3))
+		st.ops = append(st.ops, "qpack_stream_garbage")
+		frames = nil
+		st.end = vs.Pick(c, "open", "fin")
+	default:
+		st.utype = hbGrease(c)
+		if vs.Pct(c, 30) {
+			st.utype = uint64(vs.Pick(c, 4, 0x40, 0x54, 1<<62-1))
+		}
+		st.ops = append(st.ops, "unknown_uni")
+		st.end = vs.Pick(c, "fin", "open", "reset")
+	}
+	st.wire = hbAppendVarint(nil, st.utype, tw)
+	if tw != 0 {
+		st.ops = append(st.ops, "nonminimal_varint")
+	}
+	if st.kind == "ctrl" {
+		st.wire = append(st.wire, hbSerialize(frames)...)
+		if st.end == "trunc" {
+			ref := hbParse(st.wire[len(hbAppendVarint(nil, st.utype, tw)):])
+			base := len(st.wire) - func() int {
+				n := 0
+				for _, f := range frames {
+					_ = f
+				}
+				return n
+			}()
+			_ = base
+			pre := len(hbAppendVarint(nil, st.utype, tw))
+			if len(ref) > 0 {
+				f := ref[c.Intn(len(ref))]
+				cut := pre + f.hdr + vs.SizeBiased(c, max(f.end-f.hdr-1, 0), 1, 2, f.pay-f.hdr)
+				st.wire = st.wire[:max(1, min(cut, len(st.wire)))]
+			}
+			st.end = "fin"
+			st.ops = append(st.ops, "trunc_fin")
+		}
+	} else if what == "push" {
+		st.wire = append(st.wire, hbAppendVarint(nil, uint64(c.Intn(3)), 0)...) // push ID
+		st.wire = append(st.wire, hbSerialize(frames)...)
+	} else {
+		st.wire = append(st.wire, hbBytes(c, vs.SizeBiased(c, 2000, 0, 1, 100))...)
+	}
+	hbDrawDelivery(c, st)
+	return st
+}
+
+func hbDrawPlan(rt *rapid.T) *hbPlan {
+	c := vs.RapidChooser{T: rt}
+	p := &hbPlan{mode: vs.Pick(c, "server", "client", "server")}
+	if m := os.Getenv("VERIF_H3NET_MODE"); m != "" {
+		p.mode = m
+	}
+	p.randSeed = uint64(c.Intn(1 << 30))
+	small := func() hnQCfg {
+		return hnQCfg{
+			streamRead:  int64(vs.Pick(c, 0, 4096, 1200, 256, 64, 16, 65536)),
+			streamWrite: int64(vs.Pick(c, 0, 4096, 1200, 65536)),
+			connRead:    int64(vs.Pick(c, 0, 65536, 16384, 1<<20)),
+			idle:        30 * time.Second, // a lost CONNECTION_CLOSE leaves the other side waiting for this long
+		}
+	}
+	p.real, p.byz = small(), small()
+	p.byz.streamRead = int64(vs.Pick(c, 0, 65536, 4096))
+	p.faults = hnDrawFaults(c, false)
+	if vs.Pct(c, 30) {
+		// mild reordering / loss only to vary how QUIC segments the stream for the reader
+		p.faults.ReorderPct, p.faults.ReorderMax = vs.Pick(c, 5, 20, 50), time.Duration(vs.Pick(c, 5, 50))*time.Millisecond
+		p.faults.LossPct = vs.Pick(c, 0, 1, 5)
+		p.faults.HealAt = time.Second
+	}
+	n := vs.Range(c, 1, 4)
+	for k := 0; k < n; k++ {
+		st := hbDrawMessage(c, p.mode, k, int(hnEff(p.real.streamRead)))
+		if p.mode == "client" {
+			st.post = vs.Pick(c, 0, 0, 100, 300, 2000)
+			p.resps = append(p.resps, st)
+		} else {
+			p.streams = append(p.streams, st)
+		}
+	}
+	// unidirectional streams of the peer
+	if vs.Pct(c, 85) {
+		p.streams = append(p.streams, hbDrawUni(c, p.mode, "control"))
+	}
+	for j, m := 0, vs.Pick(c, 0, 0, 1, 1, 2); j < m; j++ {
+		p.streams = append(p.streams, hbDrawUni(c, p.mode, vs.Pick(c, "unknown", "unknown", "qpack", "push", "second_control")))
+	}
+	// order in which the peer's stream tasks are created is part of the plan
+	for i := len(p.streams) - 1; i > 0; i-- {
+		j := c.Intn(i + 1)
+		p.streams[i], p.streams[j] = p.streams[j], p.streams[i]
+	}
+	nctrl := 0
+	for _, st := range p.streams {
+		if st.kind == "ctrl" {
+			nctrl++
+		}
+	}
+	for _, st := range p.streams {
+		st.exp = hbAnalyze(st, p.mode)
+		if st.kind == "ctrl" && nctrl > 1 {
+			// RFC 9114 6.2.1: a second control stream is a connection error
+			st.exp = hbExpect{verdict: "latitude", why: "more than one control stream"}
+		}
+	}
+	for _, st := range p.resps {
+		st.exp = hbAnalyze(st, p.mode)
+	}
+	return p
+}
+
+// ---------------------------------------------------------------------------
+// C35: expectations from the reference parse
+
+// hbAnalyze derives from the bytes actually sent what the property demands of
+// the receiver. It errs on the side of "latitude" wherever RFC 9114 (or the
+// property text) does not pin the outcome.
+func hbAnalyze(st *hbStream, mode string) hbExpect {
+	var e hbExpect
+	lat := func(why string) {
+		if e.verdict != "latitude" {
+			e.verdict, e.why = "latitude", why
+		}
+	}
+	if st.kind == "uni" {
+		e.verdict, e.why = "latitude", "non-control unidirectional stream"
+		return e
+	}
+	wire := st.wire
+	if st.kind == "ctrl" {
+		_, n, ok := hbVarint(wire)
+		if !ok {
+			e.verdict, e.why = "latitude", "stream type cut"
+			return e
+		}
+		wire = wire[n:]
+		ref := hbParse(wire)
+		for i, f := range ref {
+			if f.cut != "" {
+				if st.end == "fin" && f.cut == "payload" && e.verdict == "" && i > 0 {
+					// everything before is in order and a frame's payload is cut short by
+					// the end of the stream: this must be reported
+					e.ctrlMustClose = true
+					e.verdict, e.why = "must_error", "control stream ends inside the payload of frame type "+strconv.FormatUint(f.typ, 16)
+					return e
+				}
+				lat("control stream cut inside a frame header or its first frame")
+				break
+			}
+			if i == 0 {
+				if f.typ != hbTSettings || st.valid[string(wire[f.pay:f.end])] != "settings" {
+					lat("first control frame is not an intact SETTINGS")
+				}
+				continue
+			}
+			if hbClass(f.typ) != "unknown" {
+				lat("known frame type on the control stream after SETTINGS")
+				continue
+			}
+			if e.verdict == "" {
+				e.unknown++
+			}
+		}
+		if len(ref) == 0 {
+			lat("empty control stream")
+		}
+		if st.end != "open" {
+			lat("control stream closed or reset")
+		}
+		if e.verdict == "" {
+			e.verdict = "strict"
+		}
+		return e
+	}
+	// request / response stream
+	ref := hbParse(wire)
+	state := 0
+	truncPayload, truncHeader := false, false
+	for _, f := range ref {
+		cl := hbClass(f.typ)
+		if f.cut != "" {
+			if f.cut != "payload" {
+				truncHeader = true
+				break
+			}
+			truncPayload = true
+			if cl == "data" && state == 1 {
+				e.body = append(e.body, wire[f.pay:f.end]...)
+			}
+			if cl == "headers" && state == 0 && e.verdict == "" {
+				e.hdrCut = true
+			}
+			if cl == "known_other" || cl == "h2reserved" || (cl == "data" && state != 1) {
+				lat("cut frame of a type that is not allowed at its position")
+			}
+			if state == 2 {
+				// the message is complete with its trailers; a receiver need not read on
+				lat("cut frame after the trailers")
+			}
+			break
+		}
+		pay := string(wire[f.pay:f.end])
+		switch cl {
+		case "unknown":
+			if state < 2 && e.verdict == "" {
+				e.unknown++
+				if state == 0 {
+					e.unkPre++
+				}
+			}
+		case "h2reserved":
+			lat("HTTP/2-only frame type")
+		case "known_other":
+			lat("frame type not allowed on a request stream")
+		case "data":
+			switch state {
+			case 0:
+				lat("DATA before HEADERS")
+			case 1:
+				e.body = append(e.body, pay...)
+			default:
+				lat("DATA after trailers")
+			}
+		case "headers":
+			role := st.valid[pay]
+			switch state {
+			case 0:
+				switch {
+				case mode == "client" && role == "info":
+					// informational response: the final response is still to come
+				case (mode == "server" && role == "req") || (mode == "client" && role == "resp"):
+					state = 1
+				case st.overread[pay]:
+					// a field section whose frame ends inside a field line: over-read
+					if e.verdict == "" {
+						e.verdict, e.why, e.hdrCut = "must_error", "first HEADERS frame ends inside a field line", true
+					}
+					state = 1
+				default:
+					lat("first HEADERS frame does not carry the generated field section")
+					state = 1
+				}
+			case 1:
+				switch {
+				case role == "trailers":
+				case st.overread[pay]:
+					if e.verdict == "" {
+						e.verdict, e.why = "must_error", "trailer HEADERS frame ends inside a field line"
+					}
+				default:
+					lat("trailer HEADERS frame does not carry the generated trailer section")
+				}
+				state = 2
+			default:
+				lat("HEADERS after trailers")
+			}
+		}
+	}
+	switch {
+	case e.verdict != "":
+	case st.end == "reset" && state == 2:
+		e.verdict, e.why = "latitude", "stream reset after a message that is complete with its trailers"
+	case st.end == "reset":
+		e.verdict, e.why = "must_error", "stream reset instead of closed"
+	case truncPayload:
+		e.verdict, e.why = "must_error", "stream ends inside a frame payload"
+	case truncHeader:
+		e.verdict, e.why = "latitude", "stream ends inside a frame header"
+	case state == 0:
+		e.verdict, e.why = "latitude", "no final HEADERS frame"
+	default:
+		e.verdict = "strict"
+	}
+	if e.verdict != "must_error" {
+		e.hdrCut = false
+	}
+	return e
+}
+
+// ---------------------------------------------------------------------------
+// C35: run
+
+type hbOutcome struct {
+	invoked  int // handler invocations / RoundTrips returned
+	got      []byte
+	readErr  error // terminal error of the body reader (io.EOF = clean end)
+	readDone bool
+	rtErr    error // client mode: RoundTrip error
+	respRaw  []byte // server mode: what the peer read back on the request stream
+	respErr  error
+	respDone bool
+	writeErr error
+	opened   bool
+	id       int64
+}
+
+type hbRun struct {
+	p    *hbPlan
+	sim  *vs.Sim
+	tr   *vs.Trace
+	ctx  context.Context
+	pnet *vs.PacketNet
+
+	mu       sync.Mutex
+	viol     *vs.Violation
+	ending   bool
+	out      map[*hbStream]*hbOutcome
+	byID     map[int64]*hbStream
+	bq       *quic.Conn // the byzantine peer's connection
+	rq       *quic.Conn // the real side's connection (client mode)
+	cc       *clientConn
+	nextSeq  int
+	settleAt time.Time
+	dialErr  error
+	strays   int
+}
+
+func (r *hbRun) setViol(v *vs.Violation) {
+	if v == nil {
+		return
+	}
+	r.mu.Lock()
+	if r.viol == nil && !r.ending {
+		r.viol = v
+	}
+	r.mu.Unlock()
+	r.sim.Wake()
+}
+
+// hbPanicSig derives a stable signature from the stack of a panic: the first
+// function of the code under test on it.
+func hbPanicSig(stack string) string {
+	for _, line := range strings.Split(stack, "\n") {
+		if strings.HasPrefix(line, "\t") || !(strings.Contains(line, "x/net/internal/http3.") || strings.Contains(line, "x/net/quic.")) {
+			continue
+		}
+		if strings.Contains(line, ".hn") || strings.Contains(line, ".hb") || strings.Contains(line, "(*hn") || strings.Contains(line, "(*hb") {
+			continue
+		}
+		fn := line
+		if i := strings.LastIndex(fn, "("); i > 0 {
+			fn = fn[:i]
+		}
+		if i := strings.LastIndex(fn, "/"); i >= 0 {
+			fn = fn[i+1:]
+		}
+		return fn
+	}
+	return "unknown"
+}
+
+func (r *hbRun) onPanic(where string, rec any) {
+	if vs.IsAbort(rec) {
+		return
+	}
+	buf := make([]byte, 16384)
+	stack := string(buf[:runtime.Stack(buf, false)])
+	r.setViol(&vs.Violation{Prop: "C35", Oracle: "panic", Sig: "panic:" + hbPanicSig(stack), Detail: fmt.Sprintf("panic on a %s goroutine of the code under test: %v\n%s", where, rec, stack)})
+}
+
+// hbAcceptStreams mirrors genericConn.acceptStreams (9 lines) with one change:
+// each stream goroutine recovers, so that a panic in the code under test becomes
+// a recorded violation instead of the death of the test process.
+func (r *hbRun) acceptStreams(c *genericConn, qconn *quic.Conn, h streamHandler, where string) {
+	for {
+		st, err := qconn.AcceptStream(context.Background())
+		if err != nil {
+			return
+		}
+		go func() {
+			defer func() {
+				if rec := recover(); rec != nil {
+					r.onPanic(where, rec)
+				}
+			}()
+			if st.IsReadOnly() {
+				c.handleUnidirectionalStream(newStream(st), h)
+			} else {
+				c.handleRequestStream(newStream(st), h)
+			}
+		}()
+	}
+}
+
+// serveConn mirrors server.newServerConn with the recovering accept loop.
+func (r *hbRun) serveConn(s *server, qconn *quic.Conn) {
+	sc := &serverConn{qconn: qconn, handler: s.handler}
+	s.registerConn(sc)
+	defer s.unregisterConn(sc)
+	sc.enc.init()
+	var err error
+	sc.controlStream, err = newConnStream(r.ctx, sc.qconn, streamTypeControl)
+	if err != nil {
+		return
+	}
+	sc.controlStream.writeSettings()
+	sc.controlStream.Flush()
+	r.acceptStreams(&sc.genericConn, qconn, sc, "server stream")
+}
+
+// newClientConn mirrors transport.newClientConn with the recovering accept loop.
+func (r *hbRun) newClientConn(tr *transport, qconn *quic.Conn) (*clientConn, error) {
+	cc := &clientConn{tr: tr, qconn: qconn}
+	tr.registerConn(cc)
+	cc.enc.init()
+	controlStream, err := newConnStream(r.ctx, cc.qconn, streamTypeControl)
+	if err != nil {
+		tr.unregisterConn(cc)
+		return nil, err
+	}
+	controlStream.writeSettings()
+	controlStream.Flush()
+	go func() {
+		r.acceptStreams(&cc.genericConn, qconn, cc, "client stream")
+		cc.mu.Lock()
+		cc.closed = true
+		cc.mu.Unlock()
+		tr.unregisterConn(cc)
+	}()
+	return cc, nil
+}
+
+func (r *hbRun) outcome(st *hbStream) *hbOutcome {
+	r.mu.Lock()
+	defer r.mu.Unlock()
+	o := r.out[st]
+	if o == nil {
+		o = &hbOutcome{id: -1}
+		r.out[st] = o
+	}
+	return o
+}
+
+// consume reads a body to its end in the stream's generated read sizes and
+// checks every byte against the reference DATA payloads.
+func (r *hbRun) consume(tk *vs.Task, st *hbStream, name string, body io.Reader) {
+	o := r.outcome(st)
+	bufLen := 1
+	for _, k := range st.readSizes {
+		bufLen = max(bufLen, k)
+	}
+	buf := make([]byte, bufLen)
+	for i := 0; ; i++ {
+		if i < st.stepped {
+			tk.Step("read")
+		}
+		k := st.readSizes[i%len(st.readSizes)]
+		n, err := body.Read(buf[:k])
+		r.mu.Lock()
+		off := len(o.got)
+		o.got = append(o.got, buf[:n]...)
+		r.mu.Unlock()
+		exp := st.exp.body
+		for j := 0; j < n; j++ {
+			if off+j >= len(exp) || exp[off+j] != buf[j] {
+				what := "beyond the DATA payloads sent"
+				if off+j < len(exp) {
+					what = fmt.Sprintf("the DATA payloads sent have %#x there", exp[off+j])
+				}
+				r.setViol(vs.Violf("C35", "body_bytes_outside_data", name+":body_not_data", "%s: body byte %d handed to the reader is %#x but %s (%d DATA payload bytes sent; stream %s)", name, off+j, buf[j], what, len(exp), st.describe()))
+				r.mu.Lock()
+				o.readErr, o.readDone = errors.New("vf: stop"), true
+				r.mu.Unlock()
+				return
+			}
+		}
+		if err != nil {
+			r.mu.Lock()
+			o.readErr, o.readDone = err, true
+			r.mu.Unlock()
+			return
+		}
+	}
+}
+
+func (st *hbStream) describe() string {
+	ref := hbParse(st.wire)
+	if st.kind != "req" {
+		if _, n, ok := hbVarint(st.wire); ok {
+			ref = hbParse(st.wire[n:])
+		}
+	}
+	var fs []string
+	for i, f := range ref {
+		if i == 12 {
+			fs = append(fs, "…")
+			break
+		}
+		s := fmt.Sprintf("%x/%d", f.typ, f.length)
+		if f.cut != "" {
+			s += "!cut-in-" + f.cut + fmt.Sprintf("(%d present)", f.end-f.pay)
+		}
+		fs = append(fs, s)
+	}
+	return fmt.Sprintf("{%s ops=%v frames(type/len)=%v end=%s bytes=%d verdict=%s(%s)}", st.kind, st.ops, fs, st.end, len(st.wire), st.exp.verdict, st.exp.why)
+}
+
+// byzWrite writes the stream's bytes in the planned segmentation and ends it.
+func (r *hbRun) byzWrite(tk *vs.Task, st *hbStream, s *quic.Stream) {
+	o := r.outcome(st)
+	for _, op := range st.ops {
+		vs.G.Inc("fault." + op)
+	}
+	off := 0
+	for i, k := range st.writes {
+		tk.Step("write")
+		_, err := s.Write(st.wire[off : off+k])
+		off += k
+		if err == nil && st.flush[i] {
+			err = s.Flush()
+		}
+		if err != nil {
+			r.mu.Lock()
+			o.writeErr = err
+			r.mu.Unlock()
+			break
+		}
+	}
+	tk.Step("end")
+	switch st.end {
+	case "fin":
+		s.CloseWrite()
+	case "reset":
+		s.Reset(st.resetCode)
+	default:
+		s.Flush()
+	}
+}
+
+func (r *hbRun) peerConn() *quic.Conn {
+	r.mu.Lock()
+	defer r.mu.Unlock()
+	return r.bq
+}
+
+// byzStream is the task of one stream the peer opens (server mode: all streams;
+// client mode: unidirectional streams).
+func (r *hbRun) byzStream(st *hbStream) func(tk *vs.Task) {
+	return func(tk *vs.Task) {
+		bq := r.peerConn()
+		tk.Step("open")
+		var s *quic.Stream
+		var err error
+		if st.kind == "req" {
+			s, err = bq.NewStream(r.ctx)
+		} else {
+			s, err = bq.NewSendOnlyStream(r.ctx)
+		}
+		o := r.outcome(st)
+		if err != nil {
+			r.mu.Lock()
+			o.writeErr = err
+			r.mu.Unlock()
+			return
+		}
+		r.mu.Lock()
+		o.opened, o.id = true, s.ID()
+		r.byID[s.ID()] = st
+		r.mu.Unlock()
+		r.byzWrite(tk, st, s)
+		if st.kind != "req" {
+			return
+		}
+		// read the response back
+		buf := make([]byte, 4096)
+		for i := 0; ; i++ {
+			if i < 3 {
+				tk.Step("readresp")
+			}
+			n, err := s.Read(buf)
+			r.mu.Lock()
+			if len(o.respRaw) < 1<<20 {
+				o.respRaw = append(o.respRaw, buf[:n]...)
+			}
+			if err != nil {
+				o.respErr, o.respDone = err, true
+			}
+			r.mu.Unlock()
+			if err != nil {
+				return
+			}
+		}
+	}
+}
+
+// srvHandler is the http.Handler of the real server in server mode.
+func (r *hbRun) srvHandler(w http.ResponseWriter, req *http.Request) {
+	br, ok := req.Body.(*bodyReader)
+	if !ok {
+		vs.G.Inc("run.byz_handler_without_body_reader")
+		return
+	}
+	id := br.st.stream.ID()
+	r.mu.Lock()
+	st := r.byID[id]
+	r.mu.Unlock()
+	if st == nil {
+		r.setViol(vs.Violf("C35", "unknown_request_in_handler", "srv:unknown_stream", "handler invoked for QUIC stream %d which the peer never opened", id))
+		return
+	}
+	o := r.outcome(st)
+	r.mu.Lock()
+	o.invoked++
+	inv := o.invoked
+	r.mu.Unlock()
+	tk := r.sim.Attach(fmt.Sprintf("bh%d", id))
+	defer func() {
+		rec := recover()
+		tk.Finish()
+		if rec != nil {
+			r.onPanic("handler", rec)
+		}
+	}()
+	if inv > 1 {
+		r.setViol(vs.Violf("C35", "request_duplicated", "srv:duplicate", "handler invoked twice for QUIC stream %d", id))
+		return
+	}
+	if st.exp.hdrCut {
+		r.setViol(vs.Violf("C35", "truncated_frame_accepted", "srv:cut_headers_accepted", "handler invoked (%s %s) although the request's HEADERS frame is cut short: %s; stream %s", req.Method, req.RequestURI, st.exp.why, st.describe()))
+		return
+	}
+	tk.Step("start")
+	r.consume(tk, st, "srv", req.Body)
+	tk.Step("respond")
+	w.Header().Set("Content-Type", "text/plain")
+	w.Header().Set("Content-Length", "2")
+	w.WriteHeader(200)
+	w.Write([]byte("ok"))
+}
+
+// clientCaller is the task of one request of the real client in client mode.
+func (r *hbRun) clientCaller(i int) func(tk *vs.Task) {
+	return func(tk *vs.Task) {
+		tk.Step("roundtrip")
+		r.mu.Lock()
+		seq := r.nextSeq
+		r.nextSeq++
+		cc := r.cc
+		r.mu.Unlock()
+		st := r.p.resps[seq]
+		o := r.outcome(st)
+		ctx, cancel := context.WithCancel(r.ctx)
+		defer cancel()
+		u, _ := url.Parse("https://vf.test/c" + strconv.Itoa(seq))
+		req := (&http.Request{Method: "GET", URL: u, Host: "vf.test", Header: http.Header{}}).WithContext(ctx)
+		if st.post > 0 {
+			req.Method = "POST"
+			q := &hnReq{hasBody: true, body: st.post, chunks: []int{100}, stepped: 1 << 20}
+			body := &hnBody{idx: seq, q: q, req: req}
+			body.tk = r.sim.Attach(fmt.Sprintf("cb%d", seq))
+			req.Body = body
+			defer body.Close()
+		}
+		res, err := cc.RoundTrip(req)
+		r.mu.Lock()
+		o.invoked++
+		o.rtErr = err
+		r.mu.Unlock()
+		if err != nil {
+			r.mu.Lock()
+			o.readErr, o.readDone = err, true
+			r.mu.Unlock()
+			return
+		}
+		if tb, ok := res.Body.(*transportResponseBody); ok {
+			if id := (*roundTripState)(tb).st.stream.ID(); id != int64(4*seq) {
+				panic(fmt.Sprintf("vf harness: request %d uses QUIC stream %d, expected %d", seq, id, 4*seq))
+			}
+		}
+		if st.exp.hdrCut {
+			r.setViol(vs.Violf("C35", "truncated_frame_accepted", "cli:cut_headers_accepted", "RoundTrip returned a response (status %d) although the response's HEADERS frame is cut short: %s; stream %s", res.StatusCode, st.exp.why, st.describe()))
+			res.Body.Close()
+			return
+		}
+		r.consume(tk, st, "cli", res.Body)
+		tk.Step("close")
+		res.Body.Close()
+	}
+}
+
+// byzResponder is the peer's task for one request stream of the real client.
+func (r *hbRun) byzResponder(st *hbStream, s *quic.Stream) func(tk *vs.Task) {
+	return func(tk *vs.Task) {
+		o := r.outcome(st)
+		r.mu.Lock()
+		o.opened, o.id = true, s.ID()
+		r.mu.Unlock()
+		r.byzWrite(tk, st, s)
+	}
+}
+
+func (r *hbRun) tasksSettled() bool {
+	now := time.Now()
+	if !r.sim.AllTasksDone() {
+		r.settleAt = time.Time{}
+		return false
+	}
+	if r.settleAt.IsZero() {
+		r.settleAt = now.Add(5 * time.Second)
+	}
+	return !now.Before(r.settleAt) && r.pnet.InFlight() == 0
+}
+
+func (r *hbRun) Events(now time.Time) []vs.Event { return nil }
+func (r *hbRun) NextTimed(now time.Time) (time.Time, bool) {
+	if !r.settleAt.IsZero() && now.Before(r.settleAt) {
+		return r.settleAt, true
+	}
+	return time.Time{}, false
+}
+
+// hbH3Code extracts the HTTP/3 error code a QUIC error carries (stream reset or
+// connection close by the peer); ok=false if it carries none.
+func hbH3Code(err error) (uint64, bool) {
+	var se quic.StreamErrorCode
+	if errors.As(err, &se) {
+		return uint64(se), true
+	}
+	var ae *quic.ApplicationError
+	if errors.As(err, &ae) {
+		return ae.Code, true
+	}
+	return 0, false
+}
+
+func hbCodeName(code uint64) string {
+	return http3Error(code).Error()
+}
+
+var hbProbes = []string{"probe.strict_stream_ok", "probe.strict_unknown_frames_skipped", "probe.must_error_reported", "probe.latitude_stream",
+	"probe.strict_control_ok", "probe.body_bytes_checked", "probe.server_mode_run", "probe.client_mode_run", "probe.unknown_before_headers_skipped",
+	"probe.cut_in_frame_header_clean_eof"}
+
+func hnRunC35(t *testing.T, rt *rapid.T) {
+	p := hbDrawPlan(rt)
+	tape := vs.DrawTape(rt, 3000)
+	tr := vs.NewTrace()
+	var viol *vs.Violation
+	var simDur time.Duration
+	var harness string
+	nontrivial := false
+	for _, name := range hbProbes {
+		vs.G.Add(name, 0)
+	}
+	deadlock := vs.Bubble(t, func() {
+		sim := vs.NewSim(tape, tr)
+		sim.MaxSteps = vs.Thorough(8000, 20000)
+		sim.Horizon = 5 * time.Minute
+		ctx, cancel := context.WithCancel(context.Background())
+		r := &hbRun{p: p, sim: sim, tr: tr, ctx: ctx, out: map[*hbStream]*hbOutcome{}, byID: map[int64]*hbStream{}}
+		r.pnet = vs.NewPacketNet(sim, p.faults)
+		srvNode, cliNode := r.pnet.Node("10.0.0.1:443"), r.pnet.Node("10.0.0.2:5000")
+		tr.Ev("plan C35 mode=%s real=%+v byz=%+v faults={lat=%v jit=%v loss=%d reo=%d/%v}", p.mode, p.real, p.byz, p.faults.BaseLatency, p.faults.Jitter, p.faults.LossPct, p.faults.ReorderPct, p.faults.ReorderMax)
+		for i, st := range p.streams {
+			tr.Ev("  peer stream %d %s writes=%d reads=%v/%d", i, st.describe(), len(st.writes), st.readSizes, st.stepped)
+		}
+		for i, st := range p.resps {
+			tr.Ev("  response %d %s writes=%d reads=%v/%d post=%d", i, st.describe(), len(st.writes), st.readSizes, st.stepped, st.post)
+		}
+		sim.AddSource(r)
+		sim.Done = r.tasksSettled
+		if d := os.Getenv("VERIF_H3NET_DUMP_AT"); d != "" {
+			if dd, err := time.ParseDuration(d); err == nil {
+				tm := time.AfterFunc(dd, func() {
+					buf := make([]byte, 1<<18)
+					fmt.Printf("VERIF-DEBUG stacks at %v:\n%s\n", dd, buf[:runtime.Stack(buf, true)])
+				})
+				defer tm.Stop()
+			}
+		}
+		sim.Check = func() *vs.Violation {
+			r.mu.Lock()
+			defer r.mu.Unlock()
+			return r.viol
+		}
+		var srvEP, cliEP *quic.Endpoint
+		var err1, err2 error
+		var loops sync.WaitGroup
+		if p.mode == "server" {
+			vs.G.Inc("probe.server_mode_run")
+			srvCfg := p.real.config(true, p.randSeed*2+2)
+			srvEP, err1 = quic.NewEndpoint(srvNode, srvCfg)
+			cliEP, err2 = quic.NewEndpoint(cliNode, nil)
+			if err1 != nil || err2 != nil {
+				harness = fmt.Sprint("endpoint: ", err1, err2)
+				cancel()
+				return
+			}
+			srv := &server{config: srvCfg, handler: http.HandlerFunc(r.srvHandler)}
+			srv.init()
+			loops.Add(1)
+			go func() {
+				defer loops.Done()
+				for {
+					qconn, err := srvEP.Accept(ctx)
+					if err != nil {
+						return
+					}
+					r.mu.Lock()
+					r.rq = qconn
+					r.mu.Unlock()
+					go r.serveConn(srv, qconn)
+				}
+			}()
+			sim.Go("dial", "C35", func(tk *vs.Task) {
+				tk.Step("dial")
+				bq, err := cliEP.Dial(ctx, "udp", "10.0.0.1:443", p.byz.config(false, p.randSeed*2+1))
+				r.mu.Lock()
+				r.bq, r.dialErr = bq, err
+				r.mu.Unlock()
+				if err != nil {
+					return
+				}
+				for i, st := range p.streams {
+					sim.Go(fmt.Sprintf("bz%d", i), "C35", r.byzStream(st))
+				}
+			})
+		} else {
+			vs.G.Inc("probe.client_mode_run")
+			srvEP, err1 = quic.NewEndpoint(srvNode, p.byz.config(true, p.randSeed*2+2))
+			cliEP, err2 = quic.NewEndpoint(cliNode, nil)
+			if err1 != nil || err2 != nil {
+				harness = fmt.Sprint("endpoint: ", err1, err2)
+				cancel()
+				return
+			}
+			cliCfg := p.real.config(false, p.randSeed*2+1)
+			tp := &transport{endpoint: cliEP, config: cliCfg, tr1: &http.Transport{DisableCompression: true}, activeConns: make(map[*clientConn]struct{})}
+			sim.Go("accept", "C35", func(tk *vs.Task) {
+				tk.Step("accept")
+				bq, err := srvEP.Accept(ctx)
+				r.mu.Lock()
+				r.bq = bq
+				r.mu.Unlock()
+				if err != nil {
+					return
+				}
+				for i, st := range p.streams {
+					sim.Go(fmt.Sprintf("bz%d", i), "C35", r.byzStream(st))
+				}
+				loops.Add(1)
+				go func() {
+					defer loops.Done()
+					for {
+						s, err := bq.AcceptStream(ctx)
+						if err != nil {
+							return
+						}
+						k := int(s.ID() / 4)
+						if s.IsReadOnly() || k >= len(p.resps) {
+							continue // the real client's control stream: left unread
+						}
+						sim.Go(fmt.Sprintf("br%d", k), "C35", r.byzResponder(p.resps[k], s))
+					}
+				}()
+			})
+			sim.Go("dial", "C35", func(tk *vs.Task) {
+				tk.Step("dial")
+				qconn, err := cliEP.Dial(ctx, "udp", "10.0.0.1:443", cliCfg)
+				if err != nil {
+					r.mu.Lock()
+					r.dialErr = err
+					r.mu.Unlock()
+					return
+				}
+				cc, err := r.newClientConn(tp, qconn)
+				r.mu.Lock()
+				r.rq, r.cc, r.dialErr = qconn, cc, err
+				r.mu.Unlock()
+				if err != nil {
+					return
+				}
+				for i := range p.resps {
+					sim.Go(fmt.Sprintf("cl%d", i), "C35", r.clientCaller(i))
+				}
+			})
+		}
+		sim.Run()
+		viol = sim.Viol
+		r.mu.Lock()
+		if viol == nil {
+			viol = r.viol
+		}
+		r.mu.Unlock()
+		if viol == nil && !sim.Stuck && !sim.StepsOut {
+			viol = r.final(&harness)
+		}
+		if sim.Stuck {
+			vs.G.Inc("run.stuck")
+			if harness == "" && viol == nil && os.Getenv("VERIF_H3NET_STUCK") != "" {
+				harness = fmt.Sprintf("stuck: %v", sim.PendingTasks())
+			}
+		}
+		if sim.StepsOut {
+			vs.G.Inc("run.steps_exhausted")
+		}
+		r.mu.Lock()
+		r.ending = true
+		for _, o := range r.out {
+			nontrivial = nontrivial || o.opened
+		}
+		r.mu.Unlock()
+		simDur = sim.Elapsed()
+		// teardown
+		cancel()
+		ectx, ecancel := context.WithCancel(context.Background())
+		ecancel()
+		cliEP.Close(ectx)
+		srvEP.Close(ectx)
+		cliNode.Close()
+		srvNode.Close()
+		loops.Wait()
+		if !sim.Drain() && harness == "" {
+			harness = fmt.Sprintf("tasks did not exit at teardown: %v", sim.PendingTasks())
+		}
+		for i := 0; i < 5; i++ {
+			sim.Sleep(time.Second)
+		}
+	})
+	if deadlock != "" && viol == nil && harness == "" {
+		harness = "bubble did not wind down: " + deadlock
+	}
+	vs.G.EndRun(tr, nontrivial, simDur, func() any {
+		return map[string]any{"mode": p.mode, "trace_head": tr.Log[:min(len(tr.Log), 40)]}
+	})
+	if harness != "" && viol == nil {
+		vs.LogTrace(rt, tr)
+		vs.Harnessf(rt, "%s", harness)
+	}
+	vs.Report(rt, viol, tr)
+}
+
+// final evaluates the outcome of every stream once the run has settled.
+func (r *hbRun) final(harness *string) *vs.Violation {
+	r.mu.Lock()
+	defer r.mu.Unlock()
+	p := r.p
+	if r.dialErr != nil || r.bq == nil {
+		vs.G.Inc("run.no_connection")
+		return nil
+	}
+	// Is the connection still up? (seen from the peer's side)
+	state := hnConnState(r.bq)
+	connCode, connHasCode := uint64(0), false
+	if state != "alive" {
+		connCode, connHasCode = hbH3Code(r.bq.Wait(canceledCtx))
+		if connHasCode {
+			vs.G.Inc("run.conn_closed_" + hbCodeName(connCode))
+		} else {
+			vs.G.Inc("run.conn_closed_other")
+		}
+	}
+	all := append(append([]*hbStream(nil), p.streams...), p.resps...)
+	allStrict := true
+	for _, st := range all {
+		if st.exp.verdict != "strict" {
+			allStrict = false
+		}
+	}
+	side := "srv"
+	if p.mode == "client" {
+		side = "cli"
+	}
+	if allStrict && state != "alive" {
+		return vs.Violf("C35", "valid_input_rejected", side+":conn_closed_on_valid_input", "every stream the peer sent is a valid HTTP/3 stream (unknown frame types in legal positions only) but the connection ended: %s", state)
+	}
+	for _, st := range all {
+		o := r.out[st]
+		if o == nil {
+			o = &hbOutcome{id: -1}
+		}
+		e := st.exp
+		switch st.kind {
+		case "uni":
+			vs.G.Inc("probe.latitude_stream")
+			continue
+		case "ctrl":
+			switch {
+			case e.ctrlMustClose && o.opened && o.writeErr == nil:
+				if state == "alive" {
+					return vs.Violf("C35", "truncated_frame_not_reported", side+":ctrl_cut_payload_ignored", "the peer's control stream ended inside a frame payload (%s) but 5 s later the connection is still open and no error was signalled; stream %s", e.why, st.describe())
+				}
+				vs.G.Inc("probe.must_error_reported")
+			case e.verdict == "strict" && state == "alive":
+				vs.G.Inc("probe.strict_control_ok")
+				if e.unknown > 0 {
+					vs.G.Inc("probe.strict_unknown_frames_skipped")
+				}
+			default:
+				vs.G.Inc("probe.latitude_stream")
+			}
+			continue
+		}
+		// request / response stream
+		if len(o.got) > 0 {
+			vs.G.Add("probe.body_bytes_checked", int64(len(o.got)))
+		}
+		clean := o.readDone && o.readErr == io.EOF
+		switch e.verdict {
+		case "strict":
+			excused := state != "alive" && !allStrict // another stream legitimately took the connection down
+			var problem string
+			switch {
+			case !o.opened:
+				excused = true
+			case o.invoked == 0:
+				problem = "was never served (handler not invoked / RoundTrip did not return)"
+				if p.mode == "server" && o.respDone {
+					if code, ok := hbH3Code(o.respErr); ok {
+						problem += fmt.Sprintf("; the request stream was reset with %s", hbCodeName(code))
+					}
+				}
+			case o.rtErr != nil:
+				problem = fmt.Sprintf("RoundTrip failed: %v", o.rtErr)
+			case !o.readDone:
+				problem = "body was not read to its end"
+			case !clean:
+				problem = fmt.Sprintf("body reader failed after %d of %d bytes: %v", len(o.got), len(e.body), o.readErr)
+			case len(o.got) != len(e.body):
+				problem = fmt.Sprintf("body ended with a clean EOF after %d bytes, the DATA payloads sent have %d", len(o.got), len(e.body))
+			}
+			if problem == "" && p.mode == "server" {
+				ref := hbParse(o.respRaw)
+				switch {
+				case !o.respDone || o.respErr != io.EOF:
+					problem = fmt.Sprintf("the peer did not receive a complete response: %d bytes, err=%v", len(o.respRaw), o.respErr)
+				case len(ref) == 0 || ref[0].typ != hbTHeaders || ref[len(ref)-1].cut != "":
+					problem = fmt.Sprintf("the response the peer received is not HEADERS ... (complete frames): %s", vs.Hex(o.respRaw))
+				}
+			}
+			if problem != "" {
+				if excused {
+					vs.G.Inc("run.strict_stream_excused_by_conn_close")
+					continue
+				}
+				sig := side + ":valid_stream_failed"
+				if e.unkPre > 0 {
+					sig = side + ":unknown_frame_before_headers"
+				} else if e.unknown > 0 {
+					sig = side + ":valid_stream_with_unknown_frames_failed"
+				}
+				oracle := "valid_input_rejected"
+				if e.unknown > 0 {
+					oracle = "unknown_frame_not_skipped"
+				}
+				return vs.Violf("C35", oracle, sig, "a valid stream (%d unknown-type frames in legal positions, %d of them before HEADERS) %s; connection %s; stream %s", e.unknown, e.unkPre, problem, state, st.describe())
+			}
+			vs.G.Inc("probe.strict_stream_ok")
+			if e.unknown > 0 {
+				vs.G.Inc("probe.strict_unknown_frames_skipped")
+			}
+			if e.unkPre > 0 {
+				vs.G.Inc("probe.unknown_before_headers_skipped")
+			}
+		case "must_error":
+			if !o.opened || o.writeErr != nil {
+				continue // the stream was not delivered in full
+			}
+			if clean {
+				return vs.Violf("C35", "truncated_frame_clean_eof", side+":cut_frame_clean_eof", "%s, yet the body reader ended with a clean io.EOF after %d bytes; stream %s", e.why, len(o.got), st.describe())
+			}
+			if o.invoked > 0 || o.respDone || state != "alive" {
+				vs.G.Inc("probe.must_error_reported")
+				code, ok := hbH3Code(o.respErr)
+				if !ok {
+					code, ok = hbH3Code(o.rtErr)
+				}
+				if !ok && connHasCode {
+					code, ok = connCode, true
+				}
+				if ok {
+					vs.G.Inc("run.must_error_code_" + hbCodeName(code))
+				} else if o.readDone && o.readErr != nil {
+					vs.G.Inc("run.must_error_read_error")
+				}
+			}
+		default:
+			vs.G.Inc("probe.latitude_stream")
+			if clean && strings.Contains(e.why, "frame header") {
+				vs.G.Inc("probe.cut_in_frame_header_clean_eof")
+			}
+		}
+	}
+	return nil
+}
+
+func TestVerif_C35(t *testing.T) { vs.Check(t, func(rt *rapid.T) { hnRunC35(t, rt) }) }
